@@ -23,10 +23,11 @@ class _ThreadingShim(types.SimpleNamespace):
 
 
 _shim = _ThreadingShim(Thread=sched.CThread, Event=sched.CEvent, RLock=sched.CRLock, Lock=sched.CLock,
-                       get_ident=threading.get_ident, current_thread=threading.current_thread)
+                       get_ident=threading.get_ident, current_thread=sched.current_thread)
 _qshim = _ThreadingShim(Queue=sched.CQueue, PriorityQueue=sched.CPriorityQueue, Empty=queue.Empty, Full=queue.Full)
 REAL = {threading.Thread: sched.CThread, threading.Event: sched.CEvent, threading.RLock: sched.CRLock,
-        threading.Lock: sched.CLock, queue.Queue: sched.CQueue, queue.PriorityQueue: sched.CPriorityQueue}
+        threading.Lock: sched.CLock, queue.Queue: sched.CQueue, queue.PriorityQueue: sched.CPriorityQueue,
+        threading.current_thread: sched.current_thread}
 
 
 def install():
